@@ -1074,6 +1074,11 @@ class Engine:
         if isinstance(cont, VMap):
             self.note_mapkey(s, cont, to_z3(x, cont.kt))
             return z3.Select(cont.dom, to_z3(x, cont.kt))
+        if isinstance(cont, VOpaque) and hasattr(x, 'z'):
+            # membership in an abstract container (e.g. an attribute declared via Spec.opaque_attrs):
+            # an uninterpreted predicate of (container, element)
+            f = z3.Function(f'contains_{cont.sortname}_{x.z.sort()}'.replace(' ', '_'), cont.z.sort(), x.z.sort(), BoolS)
+            return f(cont.z, x.z)
         if isinstance(cont, VOpaque) and isinstance(x, (VOpaque, VStr, VInt)):
             # membership in an abstract container (e.g. ipaddress network): uninterpreted predicate
             f = z3.Function(f'contains_{cont.sortname}', cont.z.sort(), x.z.sort(), BoolS)
@@ -2002,7 +2007,11 @@ class Engine:
                     nm = VMap(z3.Store(cont.dom, kz, True), z3.Store(cont.val, kz, to_z3(self.deref(s3, val), cont.vt)),
                               cont.kt, cont.vt)
                     self.note_mapkey(s3, nm, kz)
-                    self.store_container(s3, target.value, nm)
+                    if isinstance(base, VRef) and not isinstance(target.value, (ast.Name, ast.Attribute, ast.Subscript)):
+                        # f(...)[k] = v : the dict OBJECT the call returned (heap cell) is updated in place
+                        s3.heap[base.addr] = nm
+                    else:
+                        self.store_container(s3, target.value, nm)
                     res.append((s3, None))
                 elif isinstance(cont, VDict):
                     k = concrete_int(idx)
@@ -2977,6 +2986,10 @@ class Engine:
             if getattr(itd, 'elem_assume', None) is not None:
                 # per-item part of the contract of the stub that produced the sequence, instantiated at the loop index
                 s2.assume(itd.elem_assume(i))
+            if getattr(itd, 'elem_inv', None) is not None and isinstance(el, VRef):
+                # invariant of the objects held in the sequence (to be proved on their writers by the sidecar that
+                # sets it), assumed for the i-th item: elem_inv(engine, state, ref) -> z3 Bool
+                s2.assume(itd.elem_inv(self, s2, el))
             for s3, r in self.assign(s2, stmt.target, el):
                 if isinstance(r, Raised):
                     out.append((s3, ('raise', r.exc)))
